@@ -58,6 +58,7 @@ OBLIGATIONS = {
               'confirm': builder.o10_5_confirm, 'witness_ok': builder.o10_5_witness_ok},
     'O3.3': {'engine': 'B', 'title': 'get_live_files reports every table file of every live version (all seven levels)', 'run': builder.o3_3_live_files, 'confirm': builder.o3_3_confirm},
     'O2.4': {'engine': 'B', 'title': 'flush: immutable memtable dropped / obsolete files removed only after table write and manifest edit succeeded; failures recorded', 'run': dbpaths.o2_4_flush_ordering, 'confirm': dbpaths.o2_4_confirm},
+    'O11.1': {'engine': 'B', 'title': 'obsolete-file removal deletes exactly the WALs / tables / temp files / manifests nobody needs, nothing after a background error', 'run': dbpaths.o11_1_remove_obsolete, 'confirm': dbpaths.o11_1_confirm},
 }
 # Engine A obligations (Kani harnesses in /verif/harness/src/proofs.rs; runner in /verif/kani/runner.py)
 import importlib.util as _u, os as _os
@@ -82,5 +83,5 @@ PROPERTIES = {
     'C03': {'obligations': ['O1.6', 'O3.2a', 'O3.2b', 'O3.3']},
     'C04': {'obligations': ['O4.1', 'O4.3']},
     'C10': {'obligations': ['O7.1', 'O1.3', 'O10.3', 'O10.5', 'O1.7']},
-    'C11': {'obligations': ['O3.3']},
+    'C11': {'obligations': ['O3.3', 'O11.1']},
 }
